@@ -40,7 +40,11 @@
    call only (the model takes the cleaned spine, as OasisWrite.v does); for D <> 1 the explicit repetition kinds must stay on
    the grid (oasis_write_repetition rounds DIFFERENCES of explicit offsets, lower_rep rounds every offset) and a lattice
    spacing in (-1/2, 0) grid steps is written through the sign test on the unrounded value; an outside Cell object named like
-   a library cell shares its GeometryInfo cache entry (the cache is keyed by name; the trees here are keyed by object).
+   a library cell shares its GeometryInfo cache entry (the cache is keyed by name; the trees here are keyed by object);
+   Reference::repeat_and_transform multiplies by libm's cos / sin of the rotation (cos(pi / 2) = 6e-17), the model by the
+   exact 0 and +-1 of a quarter turn: the same on the grid, but off the grid a box corner exactly half a step between two
+   grid points is rounded by the sign of that error under a rotated Cell-typed reference (15 of 16000 cases of a thorough run;
+   the harness keeps those references unrotated in its off-grid bounding-box cases).
    Definitions only. *)
 From Coq Require Import QArith Qround.
 Require Import Base Generated OasisInt GdsReal OasisReal OasisPlist Table PropList OasisSpec OasisWrite.
